@@ -304,6 +304,97 @@ def gen_drag_history(rng):
     if rng.random() < 0.3: emit("flush")
     emit("end")
 
+def gen_keychain_history(rng):
+    """key dispatch along the focus chain root > ... > field with the focus on the leaf: key handlers on windows of the chain
+    (and a sibling) hide / show / close / drop windows of the chain and let the key pass or keep it; afterwards the application
+    closes and drops everything in some order (a reference the dispatch forgot shows as a window that never dies)"""
+    emit("new 10 20")
+    depth = rng.randint(2, 4)
+    parent = {0: None}
+    nw = 1
+    for d in range(depth):
+        emit("win %d %d %d %d %d %d" % (nw - 1, rng.randint(0, 1), rng.randint(0, 1), 8 - 2 * d, 16 - 3 * d, rng.choice([0, 0, 0, 1])))
+        parent[nw] = nw - 1; nw += 1
+    leaf = nw - 1
+    if rng.random() < 0.5:
+        p = rng.randrange(0, leaf)
+        emit("win %d 0 0 2 3 0" % p); parent[nw] = p; nw += 1
+    emit("focus %d" % leaf)
+    chain = list(range(1, leaf + 1))
+    for _ in range(rng.randint(1, 3)):
+        w = rng.choice(chain + [leaf, leaf])
+        acts = []
+        for _ in range(rng.randint(1, 2)):
+            r = rng.random(); tgt = rng.choice(chain)
+            if r < 0.5: acts.append("h%d" % tgt)
+            elif r < 0.62: acts.append("s%d" % tgt)
+            elif r < 0.74: acts.append("c%d" % tgt)
+            elif r < 0.82: acts.append("r%d" % tgt)
+            elif r < 0.92: acts.append("%s%d" % (rng.choice("RFLB"), rng.randrange(1, nw)))
+            else: acts.append("x")
+        emit("bind %d key %d %s" % (w, rng.choice([0, 0, 0, 1]), " ".join(acts)))
+    for _ in range(rng.randint(1, 4)):
+        r = rng.random()
+        if r < 0.6: emit("key")
+        elif r < 0.75: emit("%s %d" % (rng.choice(["show", "hide"]), rng.choice(chain)))
+        elif r < 0.85: emit("focus %d" % rng.choice(chain))
+        else: emit("flush")
+    order = list(range(1, nw)); rng.shuffle(order)
+    for w in order:
+        if rng.random() < 0.5: emit("close %d" % w)
+        emit("unref %d" % w)
+        if rng.random() < 0.3: emit("unref %d" % w)
+    if rng.random() < 0.5: emit("flush")
+    emit("end")
+
+def gen_iowatch_history(rng):
+    """I/O watches of the toplevel instance on descriptors that are readable in the same poll turn, their callbacks registering
+    further watches (past the capacity of the event loop's slot tables, 4 at first, then 8, 16 ...), cancelling watches (slots
+    are reused) and themselves; ticks with and without terminal input in between"""
+    emit("newtop 4 8")
+    nio = 0
+    def iacts():
+        out = []
+        for _ in range(rng.randint(0, 5)):
+            r = rng.random()
+            if r < 0.65: out.append("i%d" % rng.choice([1, 1, 0]))
+            elif r < 0.85: out.append("k%d" % rng.randrange(0, nio + 4))
+            else: out.append("x")
+        return out
+    for _ in range(rng.randint(3, 12)):
+        r = rng.random()
+        if r < 0.4:
+            emit(("iio %d %s" % (rng.choice([1, 1, 1, 0]), " ".join(iacts()))).strip()); nio += 1
+        elif r < 0.75:
+            emit(rng.choice(["itick", "itick", "itick a", "itick U"])); nio += 3
+        elif r < 0.85: emit("iiocancel %d" % rng.randrange(0, nio + 2))
+        elif r < 0.9: emit("ilater u0")
+        elif r < 0.95: emit("itimer 0 l")
+        else: emit(rng.choice(["iref", "tick 60", "flush"]))
+    emit("itick")
+    if rng.random() < 0.5: emit("unref 0"); emit("iunref")
+    emit("end")
+
+def gen_widerb_history(rng):
+    """render buffers wider than the scratch block holds box-drawing characters for (256 bytes: 85 of them): long runs of LINE
+    cells, broken or not by other content, flushed to the terminal"""
+    C = rng.choice([90, 100, 120, 180, 200, 300])
+    emit(rng.choice(["new 3 %d", "new 3 %d", "newmock 3 %d"]) % C)
+    L = rng.randint(1, 3)
+    emit("rb %d %d" % (L, C))
+    for _ in range(rng.randint(1, 3)):
+        for _ in range(rng.randint(1, 4)):
+            r = rng.random(); line = rng.randrange(L)
+            if r < 0.6:
+                a = rng.randint(0, C // 4); b = rng.randint(a + 1, C - 1) if rng.random() < 0.3 else rng.randint(max(a + 1, C - 20), C - 1)
+                emit("bhline 0 %d %d %d" % (line, a, b))
+            elif r < 0.75: emit("btext 0 %d %d %s" % (line, rng.randrange(C), "61" * rng.randint(1, 4)))
+            elif r < 0.85: emit("berase 0 %d %d %d" % (line, rng.randrange(C), rng.randint(1, 5)))
+            elif r < 0.95: emit("bchar 0 %d %d %d" % (line, rng.randrange(C), rng.choice([0x41, 0xe9])))
+            else: emit("btextf 0 %d 0 %s" % (line, "62" * rng.randint(60, 300)))
+        emit("bflush 0")
+    emit("end")
+
 def gen_timers_history(rng):
     """timers and deferred calls of the toplevel instance that register further timers and deferred calls while they run:
     tickit_watch_timer_at_tv for an instant of the harness's clock that has passed (it becomes the head of the queue the
@@ -1069,11 +1160,46 @@ if a.tier == "exhaustive":
                         for o in after: emit(o)
                         for o in tail: emit(o)
                         emit("end"); ndr += 1
-    info = {"termout_histories": no, "timer_callback_histories": nwt, "drag_histories": ndr, "mock_display_histories": nm, "terminput_histories": nt, "toplevel_histories": ni, "mock_resize_histories": nr, "sigwinch_histories": nsw}
-    info.update({"exhaustive_bound": "all sequences of <=3 (and a seed-selected quarter of the length-4) operations over a 13-letter lifecycle alphabet on root>1>2, 3 sibling of 1, one pen, one self-unref key handler; each followed by flush and end; tickit_mockterm_get_display_text with every buffer length (short of the known exact-fill overflow) for every span of five fixed lines of multi-byte, double-width and combining cells; all sequences of <=3 operations over a 12-letter alphabet of terminal input calls with a quitting key handler on the terminal, and over a 14-letter alphabet of toplevel-instance calls on root>1>2; tickit_mockterm_resize from 3x4 to every size of 1..5 x 1..6 and on to a second size; all sequences of <=2 (and half of those of 3) operations over a 12-letter alphabet of observe/stop/destroy/SIGWINCH on four observing terminals; all sequences of <=3 (and a third of those of 4) operations over a 10-letter alphabet of output-buffer lengths, printing, flushing, cursor movement and the 19-parameter pen on an xterm terminal with both capabilities; all sequences of <=3 operations over a 10-letter alphabet of timers and deferred calls whose callbacks register further (past, present, future) timers and deferred calls; 576 drags on root>1>2 (8 handler behaviours of the source x bound before/after the press x claiming or not x 6 ways of dropping the chain afterwards x 3 continuations)", "histories": nh})
+    # key dispatch on root > 1 > 2 > 3 with the focus on 3: one handler (on 1, 2 or 3) that hides / closes / shows a window of
+    # the chain and lets the key pass or keeps it; the chain hidden beforehand or not; two ways of dropping everything
+    nkc = 0
+    for hw in (1, 2, 3):
+        for tgt in (1, 2, 3):
+            for act in "hcs":
+                for ret in (0, 1):
+                    for pre in ([], ["hide 1"], ["hide 2"]):
+                        emit("new 10 20"); emit("win 0 1 1 8 16 0"); emit("win 1 1 1 6 12 0"); emit("win 2 1 1 2 4 0"); emit("focus 3")
+                        emit("bind %d key %d %s%d" % (hw, ret, act, tgt))
+                        for o in pre: emit(o)
+                        emit("key")
+                        if (hw + tgt + ret + len(pre) + a.seed) % 2: emit("key")
+                        for o in (["close 1", "unref 3", "unref 2", "unref 1"] if (hw + tgt + a.seed) % 2 else ["unref 1", "unref 2", "unref 3"]): emit(o)
+                        emit("end"); nkc += 1
+    # I/O watches: two or three descriptors readable in one poll turn, the first callback registering 0..5 further watches
+    # (the slot tables hold 4: the terminal's and three more), cancelling itself or a neighbour; one or two ticks
+    nio_h = 0
+    for nreg in range(0, 6):
+        for extra in ([], ["x"], ["k1"], ["k1", "i1"]):
+            for others in (1, 2, 3):
+                for ticks in (["itick"], ["itick", "itick a"]):
+                    emit("newtop 4 8")
+                    emit(("iio 1 %s" % " ".join(extra[:1] + ["i1"] * nreg + extra[1:])).strip())
+                    for _ in range(others): emit("iio 1")
+                    for o in ticks: emit(o)
+                    if (nreg + others + a.seed) % 2: emit("unref 0"); emit("iunref")
+                    emit("end"); nio_h += 1
+    # runs of LINE cells around the 85 box-drawing characters the scratch block of a render buffer holds at first
+    nwr = 0
+    for n in (84, 85, 86, 87, 171, 172):
+        for start in (0, 3):
+            for term in ("new", "newmock"):
+                emit("%s 2 200" % term); emit("rb 1 200"); emit("bhline 0 0 %d %d" % (start, start + n - 1)); emit("bflush 0")
+                emit("bhline 0 0 0 %d" % (n + 1)); emit("bflush 0"); emit("end"); nwr += 1
+    info = {"keychain_histories": nkc, "iowatch_histories": nio_h, "wide_linerun_histories": nwr, "termout_histories": no, "timer_callback_histories": nwt, "drag_histories": ndr, "mock_display_histories": nm, "terminput_histories": nt, "toplevel_histories": ni, "mock_resize_histories": nr, "sigwinch_histories": nsw}
+    info.update({"exhaustive_bound": "all sequences of <=3 (and a seed-selected quarter of the length-4) operations over a 13-letter lifecycle alphabet on root>1>2, 3 sibling of 1, one pen, one self-unref key handler; each followed by flush and end; tickit_mockterm_get_display_text with every buffer length (short of the known exact-fill overflow) for every span of five fixed lines of multi-byte, double-width and combining cells; all sequences of <=3 operations over a 12-letter alphabet of terminal input calls with a quitting key handler on the terminal, and over a 14-letter alphabet of toplevel-instance calls on root>1>2; tickit_mockterm_resize from 3x4 to every size of 1..5 x 1..6 and on to a second size; all sequences of <=2 (and half of those of 3) operations over a 12-letter alphabet of observe/stop/destroy/SIGWINCH on four observing terminals; all sequences of <=3 (and a third of those of 4) operations over a 10-letter alphabet of output-buffer lengths, printing, flushing, cursor movement and the 19-parameter pen on an xterm terminal with both capabilities; all sequences of <=3 operations over a 10-letter alphabet of timers and deferred calls whose callbacks register further (past, present, future) timers and deferred calls; 576 drags on root>1>2 (8 handler behaviours of the source x bound before/after the press x claiming or not x 6 ways of dropping the chain afterwards x 3 continuations); 324 key dispatches on root>1>2>3 focused on 3 (handler on 1/2/3 hiding, closing or showing 1/2/3, passing or keeping the key, chain shown or hidden at 1 or 2); 144 histories of I/O watches readable in one poll turn whose first callback registers 0..5 further watches and cancels itself or a neighbour; runs of 84..87 and 171..172 LINE cells flushed from a 200-column render buffer to the xterm and the mock terminal", "histories": nh})
 else:
     scale = 1 if a.tier == "quick" else 5
-    fams = {"tree": 700, "handlers": 700, "foreign": 400, "objects": 400, "pens": 400, "copyout": 400, "terminput": 500, "toplevel": 500, "mockresize": 360, "sigwinch": 400, "drag": 400, "timers": 300, "termout": 400}
+    fams = {"tree": 700, "handlers": 700, "foreign": 400, "objects": 400, "pens": 400, "copyout": 400, "terminput": 500, "toplevel": 500, "mockresize": 360, "sigwinch": 400, "drag": 400, "timers": 300, "termout": 400, "keychain": 300, "iowatch": 300, "widerb": 60}
     if a.families:
         fams = {k: v for k, v in fams.items() if k in a.families.split(",")}
     for fam, n in fams.items():
@@ -1091,6 +1217,9 @@ else:
             elif fam == "drag": gen_drag_history(rng)
             elif fam == "timers": gen_timers_history(rng)
             elif fam == "termout": gen_termout_history(rng)
+            elif fam == "keychain": gen_keychain_history(rng)
+            elif fam == "iowatch": gen_iowatch_history(rng)
+            elif fam == "widerb": gen_widerb_history(rng)
             else: gen_copyout_history(rng)
             fam_count[fam] = fam_count.get(fam, 0) + 1
     info = {"histories": sum(fam_count.values()), "families": fam_count, "mresize_combinations": resize_mix}
